@@ -10,6 +10,7 @@ package multinode
 //@   // the submitters are the beacon node clients built in main.go, none of them nil
 //@   valid self.clientMonitor != nil
 //@   valid forall k string :: in(self.syncCommitteeMessagesSubmitter, k) ==> !isnil(self.syncCommitteeMessagesSubmitter[k])
+//@   valid forall k string :: in(self.attestationsSubmitters, k) ==> !isnil(self.attestationsSubmitters[k])
 //@
 //@ extern golang.org/x/sync/semaphore.NewWeighted
 //@   ensures result != nil
@@ -17,11 +18,6 @@ package multinode
 //@ func (*Service).serviceInfo
 //@   assumes call NodeVersion#1 (r, err): err == nil ==> r != nil
 //@   modifies nothing
-//@
-//@ func (*Service).SubmitSyncCommitteeMessages
-//@   requires s != nil
-//@   // the messages are built by Vouch's own sync committee messenger
-//@   requires forall k int :: 0 <= k && k < len(messages) ==> messages[k] != nil
 //@
 //@ func (*Service).SubmitSyncCommitteeMessages$1
 //@   requires s != nil && w != nil
@@ -32,3 +28,146 @@ package multinode
 //@
 //@ func (*Service).handleSubmitSyncCommitteeMessagesError
 //@   requires s != nil && !isnil(err)
+//@
+//@ // ---- C08: a submission is offered in full to every configured node and succeeds iff one accepts ----
+//@ // what the completion flag showed when it was read after the wait
+//@ spec func flagSeen() bool
+//@
+//@ func (*Service).SubmitAttestations
+//@   requires s != nil && nolocks()
+//@   requires forall k int :: 0 <= k && k < len(attestations) ==> attestations[k] != nil && attestations[k].Data != nil
+//@   // one submission goroutine per configured node, each handed that node's client, the whole submission and the
+//@   // shared completion flag
+//@   at call go#1: assert in(s.attestationsSubmitters, arg5) && arg7 == s.attestationsSubmitters[arg5] && arg6 == attestations && arg4 == submissionCompleted && arg3 == w
+//@   ghost cnt (Array Int Int) = empty
+//@   at call go#1: ghost cnt[arg5] = cnt[arg5] + 1
+//@   loop 1
+//@     invariant forall n string {cnt[n]} :: visited(n) ==> cnt[n] == 1
+//@     invariant forall n string {cnt[n]} :: !visited(n) ==> cnt[n] == 0
+//@     invariant forall n string :: visited(n) ==> in(s.attestationsSubmitters, n)
+//@   assumes call Load#1 (v): v == flagSeen()
+//@   ensures len(attestations) > 0 ==> forall n string {cnt[n]} :: in(s.attestationsSubmitters, n) ==> cnt[n] == 1
+//@   // success is reported exactly when some node's goroutine had set the completion flag by the end of the wait
+//@   ensures len(attestations) > 0 ==> (result == nil <==> flagSeen())
+//@   ensures !(len(attestations) > 0) ==> result != nil && calls(go) == 0
+//@
+//@ func (*Service).SubmitAggregateAttestations
+//@   requires s != nil && nolocks()
+//@   // one submission goroutine per configured node, each handed that node's client, the whole submission and the
+//@   // shared completion flag
+//@   at call go#1: assert in(s.aggregateAttestationsSubmitters, arg5) && arg7 == s.aggregateAttestationsSubmitters[arg5] && arg6 == aggregates && arg4 == submissionCompleted && arg3 == w
+//@   ghost cnt (Array Int Int) = empty
+//@   at call go#1: ghost cnt[arg5] = cnt[arg5] + 1
+//@   loop 1
+//@     invariant forall n string {cnt[n]} :: visited(n) ==> cnt[n] == 1
+//@     invariant forall n string {cnt[n]} :: !visited(n) ==> cnt[n] == 0
+//@     invariant forall n string :: visited(n) ==> in(s.aggregateAttestationsSubmitters, n)
+//@   assumes call Load#1 (v): v == flagSeen()
+//@   ensures len(aggregates) > 0 ==> forall n string {cnt[n]} :: in(s.aggregateAttestationsSubmitters, n) ==> cnt[n] == 1
+//@   // success is reported exactly when some node's goroutine had set the completion flag by the end of the wait
+//@   ensures len(aggregates) > 0 ==> (result == nil <==> flagSeen())
+//@   ensures !(len(aggregates) > 0) ==> result != nil && calls(go) == 0
+//@
+//@ func (*Service).SubmitBeaconCommitteeSubscriptions
+//@   requires s != nil && nolocks()
+//@   // one submission goroutine per configured node, each handed that node's client, the whole submission and the
+//@   // shared completion flag
+//@   at call go#1: assert in(s.beaconCommitteeSubscriptionSubmitters, arg5) && arg7 == s.beaconCommitteeSubscriptionSubmitters[arg5] && arg6 == subscriptions && arg4 == submissionCompleted && arg3 == w
+//@   ghost cnt (Array Int Int) = empty
+//@   at call go#1: ghost cnt[arg5] = cnt[arg5] + 1
+//@   loop 1
+//@     invariant forall n string {cnt[n]} :: visited(n) ==> cnt[n] == 1
+//@     invariant forall n string {cnt[n]} :: !visited(n) ==> cnt[n] == 0
+//@     invariant forall n string :: visited(n) ==> in(s.beaconCommitteeSubscriptionSubmitters, n)
+//@   assumes call Load#1 (v): v == flagSeen()
+//@   ensures !isnil(subscriptions) ==> forall n string {cnt[n]} :: in(s.beaconCommitteeSubscriptionSubmitters, n) ==> cnt[n] == 1
+//@   // success is reported exactly when some node's goroutine had set the completion flag by the end of the wait
+//@   ensures !isnil(subscriptions) ==> (result == nil <==> flagSeen())
+//@   ensures !(!isnil(subscriptions)) ==> result != nil && calls(go) == 0
+//@
+//@ func (*Service).SubmitProposal
+//@   requires s != nil && nolocks()
+//@   // one submission goroutine per configured node, each handed that node's client, the whole submission and the
+//@   // shared completion flag
+//@   at call go#1: assert in(s.proposalSubmitters, arg5) && arg7 == s.proposalSubmitters[arg5] && arg6 == proposal && arg4 == submissionCompleted && arg3 == w
+//@   ghost cnt (Array Int Int) = empty
+//@   at call go#1: ghost cnt[arg5] = cnt[arg5] + 1
+//@   loop 1
+//@     invariant forall n string {cnt[n]} :: visited(n) ==> cnt[n] == 1
+//@     invariant forall n string {cnt[n]} :: !visited(n) ==> cnt[n] == 0
+//@     invariant forall n string :: visited(n) ==> in(s.proposalSubmitters, n)
+//@   assumes call Load#1 (v): v == flagSeen()
+//@   ensures proposal != nil ==> forall n string {cnt[n]} :: in(s.proposalSubmitters, n) ==> cnt[n] == 1
+//@   // success is reported exactly when some node's goroutine had set the completion flag by the end of the wait
+//@   ensures proposal != nil ==> (result == nil <==> flagSeen())
+//@   ensures !(proposal != nil) ==> result != nil && calls(go) == 0
+//@
+//@ func (*Service).SubmitProposalPreparations
+//@   requires s != nil && nolocks()
+//@   // one submission goroutine per configured node, each handed that node's client, the whole submission and the
+//@   // shared completion flag
+//@   at call go#1: assert in(s.proposalPreparationsSubmitters, arg5) && arg7 == s.proposalPreparationsSubmitters[arg5] && arg6 == preparations && arg4 == submissionCompleted && arg3 == w
+//@   ghost cnt (Array Int Int) = empty
+//@   at call go#1: ghost cnt[arg5] = cnt[arg5] + 1
+//@   loop 1
+//@     invariant forall n string {cnt[n]} :: visited(n) ==> cnt[n] == 1
+//@     invariant forall n string {cnt[n]} :: !visited(n) ==> cnt[n] == 0
+//@     invariant forall n string :: visited(n) ==> in(s.proposalPreparationsSubmitters, n)
+//@   assumes call Load#1 (v): v == flagSeen()
+//@   ensures len(preparations) > 0 ==> forall n string {cnt[n]} :: in(s.proposalPreparationsSubmitters, n) ==> cnt[n] == 1
+//@   // success is reported exactly when some node's goroutine had set the completion flag by the end of the wait
+//@   ensures len(preparations) > 0 ==> (result == nil <==> flagSeen())
+//@   ensures !(len(preparations) > 0) ==> result != nil && calls(go) == 0
+//@
+//@ func (*Service).SubmitSyncCommitteeContributions
+//@   requires s != nil && nolocks()
+//@   // one submission goroutine per configured node, each handed that node's client, the whole submission and the
+//@   // shared completion flag
+//@   at call go#1: assert in(s.syncCommitteeContributionsSubmitters, arg5) && arg7 == s.syncCommitteeContributionsSubmitters[arg5] && arg6 == contributionAndProofs && arg4 == submissionCompleted && arg3 == w
+//@   ghost cnt (Array Int Int) = empty
+//@   at call go#1: ghost cnt[arg5] = cnt[arg5] + 1
+//@   loop 1
+//@     invariant forall n string {cnt[n]} :: visited(n) ==> cnt[n] == 1
+//@     invariant forall n string {cnt[n]} :: !visited(n) ==> cnt[n] == 0
+//@     invariant forall n string :: visited(n) ==> in(s.syncCommitteeContributionsSubmitters, n)
+//@   assumes call Load#1 (v): v == flagSeen()
+//@   ensures len(contributionAndProofs) > 0 ==> forall n string {cnt[n]} :: in(s.syncCommitteeContributionsSubmitters, n) ==> cnt[n] == 1
+//@   // success is reported exactly when some node's goroutine had set the completion flag by the end of the wait
+//@   ensures len(contributionAndProofs) > 0 ==> (result == nil <==> flagSeen())
+//@   ensures !(len(contributionAndProofs) > 0) ==> result != nil && calls(go) == 0
+//@
+//@ func (*Service).SubmitSyncCommitteeMessages
+//@   requires s != nil && nolocks()
+//@   // the messages are built by Vouch's own sync committee messenger
+//@   requires forall k int :: 0 <= k && k < len(messages) ==> messages[k] != nil
+//@   // one submission goroutine per configured node, each handed that node's client, the whole submission and the
+//@   // shared completion flag
+//@   at call go#1: assert in(s.syncCommitteeMessagesSubmitter, arg5) && arg7 == s.syncCommitteeMessagesSubmitter[arg5] && arg6 == messages && arg4 == submissionCompleted && arg3 == w
+//@   ghost cnt (Array Int Int) = empty
+//@   at call go#1: ghost cnt[arg5] = cnt[arg5] + 1
+//@   loop 1
+//@     invariant forall n string {cnt[n]} :: visited(n) ==> cnt[n] == 1
+//@     invariant forall n string {cnt[n]} :: !visited(n) ==> cnt[n] == 0
+//@     invariant forall n string :: visited(n) ==> in(s.syncCommitteeMessagesSubmitter, n)
+//@   assumes call Load#1 (v): v == flagSeen()
+//@   ensures len(messages) > 0 ==> forall n string {cnt[n]} :: in(s.syncCommitteeMessagesSubmitter, n) ==> cnt[n] == 1
+//@   // success is reported exactly when some node's goroutine had set the completion flag by the end of the wait
+//@   ensures len(messages) > 0 ==> (result == nil <==> flagSeen())
+//@   ensures !(len(messages) > 0) ==> result != nil && calls(go) == 0
+//@
+//@ func (*Service).SubmitSyncCommitteeSubscriptions
+//@   requires s != nil && nolocks()
+//@   // one submission goroutine per configured node, each handed that node's client, the whole submission and the
+//@   // shared completion flag
+//@   at call go#1: assert in(s.syncCommitteeSubscriptionSubmitters, arg5) && arg7 == s.syncCommitteeSubscriptionSubmitters[arg5] && arg6 == subscriptions && arg4 == submissionCompleted && arg3 == w
+//@   ghost cnt (Array Int Int) = empty
+//@   at call go#1: ghost cnt[arg5] = cnt[arg5] + 1
+//@   loop 1
+//@     invariant forall n string {cnt[n]} :: visited(n) ==> cnt[n] == 1
+//@     invariant forall n string {cnt[n]} :: !visited(n) ==> cnt[n] == 0
+//@     invariant forall n string :: visited(n) ==> in(s.syncCommitteeSubscriptionSubmitters, n)
+//@   assumes call Load#1 (v): v == flagSeen()
+//@   ensures len(subscriptions) > 0 ==> forall n string {cnt[n]} :: in(s.syncCommitteeSubscriptionSubmitters, n) ==> cnt[n] == 1
+//@   // success is reported exactly when some node's goroutine had set the completion flag by the end of the wait
+//@   ensures len(subscriptions) > 0 ==> (result == nil <==> flagSeen())
+//@   ensures !(len(subscriptions) > 0) ==> result != nil && calls(go) == 0
